@@ -9,7 +9,8 @@ LEVEL = "proof"
 MANIFEST = {
     "technique": "Coq proof over the C01 box model (Size() transcribed separately from the encoders) and over a Gallina model of "
                  "the aggregates Fragment / MediaSegment / InitSegment / File built on the C05 fragment model (Size, Info, Encode, "
-                 "EncodeSW as state transformers: OptimizeTfhdTrun, SetTrunDataOffsets, mdat LargeSize, EncOptimize hand-down) + "
+                 "EncodeSW as state transformers: OptimizeTfhdTrun, SetTrunDataOffsets, mdat LargeSize, EncOptimize hand-down; "
+                 "EncodeSW also with the FixedSliceWriter capacity threaded through the boxes; SencBox with its two decoding phases) + "
                  "differential correspondence (extracted OCaml vs Go: boxes; histories of Size/Info/Encode/EncodeSW on API-built and "
                  "decoded aggregates, bytes and mutated fields after every operation) + failing-input search on every node of every "
                  "decoded tree and on aggregates, also after the setter calls / field updates applications make",
@@ -40,7 +41,21 @@ MANIFEST = {
                   "samples included, gives a built_ok box), C02_senc (a senc_ok box is left alone by Info/Encode/EncodeSW, both "
                   "paths write the same Size() bytes with a correct size field), C02_senc_obox (it is a well-formed stateless "
                   "opaque box of the aggregate theorems); *_refuted: the AddSample text before the repairs ecf1460 / 0b086ee, and "
-                  "a box whose flag is inconsistent. EXPLORATION for all other registered box types (per-node "
+                  "a box whose flag is inconsistent. Writer capacity (C02AggCapModel.v, the room left is threaded through every "
+                  "box of Fragment / MediaSegment / InitSegment / File.EncodeSW): C02_encode_sw_capacity_independent / _segment / "
+                  "_init / _file (a success with ANY capacity is the success of Encode, wrote exactly Size() bytes and left "
+                  "capacity - Size(); EVERY capacity >= Size() gives the same state and boxes), _complete, and _refuted (false "
+                  "for a box that writes more than Size(), the MetaBox defect 35ed2e5). Decoded SencBox states (senc_decode = "
+                  "DecodeSenc / DecodeSencSR, senc_parse = ParseReadBox / parseAndFillSamples): C02_senc_decoded (every box the "
+                  "first phase leaves - parsed or not, sample_count 0 with bytes after it included since 954ff09 - writes Size() "
+                  "bytes with a correct size field on both paths and is not changed), C02_senc_zero_pinned_refuted (K1/K2/K4 "
+                  "before the repair), C02_senc_parsed (after a successful second phase with any perSampleIVSize byte: never "
+                  "more than Size() bytes, and exactly Size() IF AND ONLY IF senc_parse_exact: sub-sample flag set or count * "
+                  "ivsize = len(data)), C02_senc_parse_trailing_refuted (known C02-K5). Progressive files / box-tree mode: "
+                  "C02_file_progressive (one box per child in order, only mdat.LargeSize changes - moov with stco / co64 is "
+                  "written as it is -, every box has the length Size() reports afterwards, the file position of every mdat "
+                  "payload computed from Size() / HeaderSize() is its position in the output, a settled file is not changed). "
+                  "EXPLORATION for all other registered box types (per-node "
                   "oracle through the Box interface) and for what the aggregate model keeps opaque (moov, styp, sidx, emsg, prft, "
                   "... are boxes with a Size() and bytes): histories on the real implementation, incl. after setter calls "
                   "and field updates with boundary values in every version- or width-dependent box, output re-decoded.",
@@ -51,10 +66,15 @@ MANIFEST = {
                   "case): a box other than tfhd/tfdt/trun/mfhd/mdat/traf/moof is opaque and stateless (Size() taken before its "
                   "first Encode = bytes written = its size field); no mdat has lazily written data; a fragment is [boxes] moof "
                   "[boxes] mdat [boxes]; the pointer sharing between File.Children and the segments is a flag; equal write-order "
-                  "numbers are ordered as Go's insertion sort does (up to 12 truns). SencBox is modelled on its own (coq/c02/C02AggSencModel.v, "
-                  "its own correspondence stream); inside a traf it is an opaque box, which C02_senc_obox justifies for senc_ok "
-                  "boxes; the state after a FAILED Encode of a fragment holding a not-senc_ok senc is not modelled. C12's "
-                  "abstraction is reached through abs_file (kind and Size() per box).",
+                  "numbers are ordered as Go's insertion sort does (up to 12 truns). The slice writer is modelled at box "
+                  "granularity (a box that does not fit is an error of that box's EncodeSW; partial bytes of a failed box are "
+                  "not observable in the model); sized-writer histories take Size() first (an operation of its own). SencBox is "
+                  "modelled on its own (coq/c02/C02AggSencModel.v, its own correspondence streams: built, poked, decoded from "
+                  "generated bytes by both decoders and parsed); inside a traf it is an opaque box, which C02_senc_obox (built) "
+                  "and C02_senc_decoded / C02_senc_parsed (decoded; the latter under senc_parse_exact) justify; the state after "
+                  "a FAILED Encode of a fragment holding an inconsistent senc is not modelled. Chunk offsets are not interpreted: "
+                  "C02_file_progressive speaks about positions. C12's abstraction is reached through abs_file (kind and Size() "
+                  "per box).",
 }
 
 
@@ -91,7 +111,8 @@ def run_agg_corr(ctx, exe2, amodel, seed, n):
     ctx.cov["distinct_nontrivial"] += distinct
     stats = [l for l in e.splitlines() if l.startswith("STATS")]
     ctx.notes["aggregate_correspondence"] = {
-        "what": "per operation of a random history of Size/Info/Encode/EncodeSW: outcome (Size() value; length, md5 and top-level box "
+        "what": "per operation of a random history of Size/Info/Encode/EncodeSW (EncodeSW into a generous writer and into writers of "
+                "exactly Size(), Size()+1, Size()+64 and 2*Size() bytes = XSizedSW of C02AggCapModel): outcome (Size() value; length, md5 and top-level box "
                 "lengths of the bytes; error; panic) and the mutated fields (trun flags/data offset/first-sample-flags, tfhd "
                 "flags/defaults, mdat LargeSize, EncOptimize) vs afrag_step / aseg_step / ainit_step / afile_step; every opaque "
                 "box is checked against the model's assumption Size()-before-first-Encode = bytes written = size field",
@@ -103,8 +124,12 @@ def run_agg_corr(ctx, exe2, amodel, seed, n):
                   "0/1/2), each optionally after setter calls / field updates with boundary values; every testdata file < 120 kB "
                   "decoded (both decoders) in both modes x optimisation, its first segments and fragments; senc: histories of "
                   "AddSample (no / 8 / 16-byte / mixed IVs, sub-samples on none / all / some samples), 1/4 with fields poked "
-                  "afterwards (flag, SampleCount, truncated IVs / SubSamples, SetPerSampleIVSize), and the senc boxes of the "
-                  "decoded testdata",
+                  "afterwards (flag, SampleCount, truncated IVs / SubSamples, SetPerSampleIVSize), the senc boxes of the "
+                  "decoded testdata, and generated senc boxes (compact / large-size header; 0-5 samples with 0/8/16-byte IVs, "
+                  "with / without sub-sample tables; 0-2 damages: bytes appended or cut, count changed or zeroed, flags flipped, "
+                  "version set, payload shorter than the fields) decoded by DecodeBox AND DecodeBoxSR, then ParseReadBox with "
+                  "perSampleIVSize none / 0 / the right one / 1 4 8 16 255, then a history; observed after each step: outcome, "
+                  "flags, perSampleIVSize, len(IVs), len(SubSamples), readButNotParsed",
     }
     ctx.cov["samples"] += [l[:300] for l in lines[3:5]]
     ctx.log("aggregate correspondence: %d histories (%d distinct), %d mismatches" % (len(lines), distinct, len(mism)))
@@ -188,14 +213,20 @@ def run(ctx):
                        "setters: built init segments (with edts/elst, mehd), segments (emsg, prft, sidx), files and decoded testdata "
                        "files after 1..4 setter calls / field updates (boundary values 0, 2^31, 2^32-1, 2^32, 2^40 +-1 in every "
                        "time/duration/size field of mvhd tkhd mdhd mehd tfdt sidx elst emsg prft, version toggles): the aggregate "
-                       "history, the output re-decoded, and the per-node oracle on a second, equal copy; "
+                       "history, the output re-decoded, and the per-node oracle on a second, equal copy; every aggregate history "
+                       "also EncodeSW into writers of Size()+1, Size()+64 and 2*Size() bytes (success must mean exactly Size() "
+                       "bytes, the same ones); progressive files (decoded testdata box by box, built ftyp/moov/mdat orders with "
+                       "Data / DataParts / LargeSize): mdat payload positions from Size()/HeaderSize() = positions in the output, "
+                       "moov written as it is; senc boxes decoded from generated bytes (both decoders) and parsed: per-node oracle; "
+                       "HdlrBox with handler types of 0..8 characters; "
                        "aggregate corr: see aggregate_correspondence.inputs")
     ctx.cov["trusted_base"] += [
         "model: coq/c02/C02AggModel.v (hand transcription of Fragment/MediaSegment/InitSegment/File Size, Info, Encode, EncodeSW, "
         "MoofBox.Encode, TrafBox, MdatBox, SetTrunDataOffsets; OptimizeTfhdTrun and the tfhd/tfdt/trun/mdat records and sizes "
         "from coq/c05/C05Model.v, C05FragModel.v, C05CodecModel.v); opaque boxes are (type, Size(), bytes, error) and stateless",
         "model: coq/c02/C02AggSencModel.v (hand transcription of mp4/senc.go: AddSample, setSubSamplesUsedFlag, Size, calcSize, "
-        "Encode, EncodeSW, EncodeSWNoHdr, Info at level 1)",
+        "Encode, EncodeSW, EncodeSWNoHdr, Info at level 1, DecodeSenc / DecodeSencSR, ParseReadBox, parseAndFillSamples)",
+        "model: coq/c02/C02AggCapModel.v (the aggregate EncodeSW loops with the FixedSliceWriter room threaded through, box granularity)",
         "ocaml/c02_driver.ml, harness/c02/corr.go + setters.go (serialisation of the structures, digests of the mutated fields)",
     ]
 
@@ -215,7 +246,7 @@ def replay(ctx, path):
             print(l[:600])
         return 1 if mism else 0
     if r.get("kind") == "failing-input" and (w.startswith("setters ") or w.startswith("file=") or w.startswith("built ")
-                                             or w.startswith("Create")):
+                                             or w.startswith("Create") or w.startswith("HdlrBox") or " decoded (sr=" in w):
         # aggregate witnesses are descriptions; the search is deterministic for the recorded seed
         print(json.dumps(r, indent=1)[:6000])
         exe1, exe2, model = build(ctx)
